@@ -41,19 +41,21 @@ struct TypeSpec {
     name: &'static str,
     nvals: u8,
     join: bool,
+    /// the element type is a list
+    nested: bool,
 }
 
-const T_U8: TypeSpec = TypeSpec { name: "u8", nvals: 2, join: false };
-const T_U64: TypeSpec = TypeSpec { name: "u64", nvals: 2, join: false };
-const T_STR: TypeSpec = TypeSpec { name: "String", nvals: 2, join: true };
-const T_NESTED: TypeSpec = TypeSpec { name: "List<u8>", nvals: 2, join: false };
-const T_Z: TypeSpec = TypeSpec { name: "Val<Z>", nvals: 1, join: false };
-const T_TR: TypeSpec = TypeSpec { name: "Val<Tr>", nvals: 2, join: false };
-const T_OPT: TypeSpec = TypeSpec { name: "Option<u32>", nvals: 2, join: false };
+const T_U8: TypeSpec = TypeSpec { name: "u8", nvals: 2, join: false, nested: false };
+const T_U64: TypeSpec = TypeSpec { name: "u64", nvals: 2, join: false, nested: false };
+const T_STR: TypeSpec = TypeSpec { name: "String", nvals: 2, join: true, nested: false };
+const T_NESTED: TypeSpec = TypeSpec { name: "List<u8>", nvals: 2, join: false, nested: true };
+const T_Z: TypeSpec = TypeSpec { name: "Val<Z>", nvals: 1, join: false, nested: false };
+const T_TR: TypeSpec = TypeSpec { name: "Val<Tr>", nvals: 2, join: false, nested: false };
+const T_OPT: TypeSpec = TypeSpec { name: "Option<u32>", nvals: 2, join: false, nested: false };
 // element types whose equality is not reflexive (NaN) and not bitwise (0.0 == -0.0)
-const T_F64: TypeSpec = TypeSpec { name: "f64", nvals: 3, join: false };
-const T_F32: TypeSpec = TypeSpec { name: "f32", nvals: 3, join: false };
-const T_NESTED_F: TypeSpec = TypeSpec { name: "List<f64>", nvals: 3, join: false };
+const T_F64: TypeSpec = TypeSpec { name: "f64", nvals: 3, join: false, nested: false };
+const T_F32: TypeSpec = TypeSpec { name: "f32", nvals: 3, join: false, nested: false };
+const T_NESTED_F: TypeSpec = TypeSpec { name: "List<f64>", nvals: 3, join: false, nested: true };
 
 /// what mk(0) and mk(1) are, per element type (for the written-out cases)
 const ELEMENTS: [(&str, &str); 10] = [
@@ -144,7 +146,7 @@ struct Plan {
 }
 
 fn alpha(ty: &TypeSpec, swap_all_pairs: bool) -> Alpha {
-    Alpha { nvals: ty.nvals, join: ty.join, swap_all_pairs }
+    Alpha { nvals: ty.nvals, join: ty.join, nested: ty.nested, swap_all_pairs }
 }
 
 fn build_plan(tier: Tier) -> Plan {
